@@ -24,9 +24,9 @@ CLAIMED = {
             "Residue: the Gale-Shapley theorem itself; tie handling."),
     "C03": ("§2 C03", "comparison normal forms of threshold predicates, sibling consistency, affine index/epoch conventions at SQL sinks, reader/writer interval predicates, SQL AST of rain-depth view, index spaces of looked-up positions, cursor typestate of the per-interval loop",
             "Residue: numpy cumsum labelling of interior runs is not re-derived."),
-    "C04": ("§2 C04", "finite-skeleton extraction of the flag automaton (all 8 valuations), boolean normal form of flags, affine alignment of rates, INSERT column/argument lineage, cursor typestate of the per-interval loop",
+    "C04": ("§2 C04", "finite-skeleton extraction of the flag automaton (all 8 valuations), boolean normal form of flags, affine alignment of rates, INSERT column/argument lineage, cursor typestate of the per-interval loop, must-pass-through of the flags INSERT (post-dominance)",
             "Residue: maximal-run labelling as in C03."),
-    "C05": ("§2 C05", "algebraic normal form of the assembled residual row vs. the gradient of the stated objective; def-use of normal-equation operands; reference position; connected components merge every group a level bridges",
+    "C05": ("§2 C05", "algebraic normal form of the assembled residual row vs. the gradient of the stated objective; def-use of normal-equation operands; reference position; connected components merge every group a level bridges; lineage of the stored rows (shared with C13)",
             "Residue: conditioning/singularity, floating point."),
     "C07": ("§2 C07", "time-origin lattice dataflow (ABS/REL/ABS~) from epoch sources to comparisons and stored columns",
             "Residue: equivariance of float arithmetic on origin-free values."),
@@ -36,21 +36,21 @@ CLAIMED = {
             "Residue: numeric equality of np.interp; gap detection threshold."),
     "C11": ("§2 C11", "time-zone API provenance discipline, same-zone def-use, guard dominance of refusals over writes (CFG + call graph), premise of the foreign-key fallback for non-uniform steps",
             "Residue: pytz tables; DST-ambiguous hours."),
-    "C12": ("§2 C12", "library API resolution against installed numpy/scipy, rounding-function agreement and half-open range shapes, pair coverage (every pair of consecutive samples, exact filters only), bracket index agreement, default interpolant",
+    "C12": ("§2 C12", "library API resolution against installed numpy/scipy, rounding-function agreement and half-open range shapes, pair coverage (every pair of consecutive samples, exact filters only), bracket index agreement, default interpolant, scale agreement of closed-form positions, read-only arguments (may-alias of parameter arrays vs in-place operations)",
             "Residue: brentq tolerance; samples one ulp beside a level."),
     "C13": ("§2 C13", "entity typing of SQL joins from the FK graph, interval-kind predicates, lineage of every stored row resolved through loop bindings / per-row lists / index look-ups, grid-step lineage, index-translation table, cursor typestate, grid containment",
             "Residue: top level when max/step is an integer (documented numeric edge)."),
-    "C14": ("§2 C14", "constant propagation to splrep (s=0,k=3), clamp normal form, order-cell evaluation of integrate over all weak orderings of (a,b,xmin,xmax), delegation",
+    "C14": ("§2 C14", "constant propagation to splrep (s=0,k=3), clamp normal form, order-cell evaluation of integrate over all weak orderings of (a,b,xmin,xmax), delegation of value and integral to one function (one-sided value-changing wrappers)",
             "Residue: FITPACK itself; splint modelled as documented."),
-    "C15": ("§2 C15", "branch/formula normal forms of call_scalar, exp-of-log-spline order 1, array path = mapped scalar path, unit bookkeeping",
+    "C15": ("§2 C15", "branch/formula normal forms of call_scalar, exp-of-log-spline order 1, array path = mapped scalar path (a gather by the sorting permutation is named), unit bookkeeping",
             "Residue: quadrature accuracy."),
-    "C16": ("§2 C16", "API resolution; cross-language algebraic normal-form agreement between the R reference and specific_yield.py; transmissivity normal form; refusal dominance; layer sum is not a quadrature routine",
+    "C16": ("§2 C16", "API resolution; cross-language algebraic normal-form agreement between the R reference and specific_yield.py; transmissivity normal form; refusal dominance; layer sum is not a quadrature routine; parameter mapping bound to constructors by name",
             "Residue: numerical agreement with R output."),
     "C17": ("§2 C17", "affine cell-integral indices, polarity of the mean shift, SQL ordering/binding, row integrity of 2-D row arrays, label/column/unit agreement",
             "Residue: inherited from C14; YAML layout."),
-    "C18": ("§2 C18", "integrand normal form, cell integrals, unit bookkeeping, ET interval-predicate rule, output ordering parity and label/unit agreement",
+    "C18": ("§2 C18", "integrand normal form, cell integrals, unit bookkeeping, ET interval-predicate rule, unit conversion keyed on the section it converts, output ordering parity and label/unit agreement",
             "Residue: quadrature; sign of denominator."),
-    "C19": ("§2 C19", "symbolic line counts vs declared counts, name-family equality, ordering parity pst vs simulate, format precision, instruction window width, marker agreement, template/constructor keys",
+    "C19": ("§2 C19", "symbolic line counts vs declared counts, name-family equality, ordering parity pst vs simulate, format precision, instruction window width against the width of hand-formatted items, marker agreement, template/constructor keys",
             "Residue: PEST's own parsing rules."),
     "C20": ("§2 C20", "transaction-effect analysis: call-graph + CFG reachability from commit points to writes, handler discipline, connection mode, first keyword of every write (driver-opened transaction), Bernstein conditions on table read/write sets",
             "Trusted base: SQLite atomic commit; CPython sqlite3 legacy transaction control. O5 is a sufficient condition (labelled)."),
@@ -104,7 +104,7 @@ def main():
         }],
         "checks": checks,
         "not_applicable": na,
-        "notes": "All checks are static: they parse /repo's current working tree on every run and never import or execute spowtd. Every obligation has three outcomes: holds; a construct that is present is wrong (VIOLATION naming it, exit 1); the construction is not one the rule reads (ANALYSIS-ERROR, exit 2 -- never a VIOLATION). The thorough tier adds self-validation on the current tree: labelled breaking / preserving edits, 101 independently written breaking changes (seeded/) and 158 independently written behaviour-preserving refactorings (preserving/), applied in memory.",
+        "notes": "All checks are static: they parse /repo's current working tree on every run and never import or execute spowtd. Every obligation has three outcomes: holds; a construct that is present is wrong (VIOLATION naming it, exit 1); the construction is not one the rule reads (ANALYSIS-ERROR, exit 2 -- never a VIOLATION). The thorough tier adds self-validation on the current tree: labelled breaking / preserving edits, 119 independently written breaking changes (seeded/) and 158 independently written behaviour-preserving refactorings (preserving/), applied in memory.",
     }
     with open(os.path.join(ROOT, "MANIFEST.json"), "w") as fh:
         json.dump(manifest, fh, indent=1)
